@@ -557,6 +557,51 @@ def c17_documented_member(i: int, static: int, nargs: int) -> bool:
     return ok
 
 
+CODE_TEXTS = ["calls self->print(s) on the stream", "self->print", "like self->run(s); or Cls::run", "see .def(\"print\", ...) and py::arg(\"s\")",
+              "{prefix}{suffix} {} {0} {cpp_class}", "%s %d %(name)s", "__repr__ uses self.print(s)", "py::scoped_ostream_redirect output;", "R\"pbdoc( )pbdoc\""]
+CODE_MEMBERS = ["print", "run", "serialize", "svg", "insert"]
+
+
+def c17_code_like_text(i: int, j: int, static: int) -> bool:
+    """
+    Documentation that LOOKS LIKE the code the generator itself emits (its lambda bodies, its format placeholders, its
+    post-processing targets) is still embedded as the text it is: the binding of `Cls::<name>` carries exactly the given
+    text, for ordinary members and for the members the generator post-processes (print, serialize, ipython display names).
+    pre: 0 <= i < len(CODE_MEMBERS) and 0 <= j < len(CODE_TEXTS) and 0 <= static <= 1
+    post: _
+    """
+    i, j, static = pick(i, 0, len(CODE_MEMBERS)), pick(j, 0, len(CODE_TEXTS)), pick(static, 0, 2)
+    with concrete():
+        from harness import readers
+        name, doc = CODE_MEMBERS[i], CODE_TEXTS[j]
+        member = ("static void %s(string s);" if static else "void %s(string s) const;") % name
+        text = "namespace top { class Cls { Cls(); %s void other(int z) const; }; }" % member
+        w = PybindWrapper(module_name="mod", top_module_namespaces=[''], ignore_classes=[''], module_template=pipe.PYBIND_TPL, xml_source="xmlsrc")
+        w.xml_parser.extract_docstring = lambda folder, cls, meth, argnames: doc if meth == name else ""
+        problems = []
+        try:
+            body = pipe.pybind_body(text, wrapper=w)
+        except Exception as ex:
+            body = ""
+            problems.append("raised %r" % ex)
+
+        def text_of(lit):
+            by = c_decode(lit[1:-1]) if len(lit) >= 2 and lit[0] == lit[-1] == '"' else None
+            return None if by is None else bytes(by).decode("utf-8", "replace")
+        if body:
+            defs = [d for e in readers.parse_pybind(body) for d in e.get("defs", []) if d.get("doc")]
+            docs = [text_of(d["doc"]) for d in defs]
+            if name == "serialize":
+                pass                 # replaced by the pickling bindings (a static `serialize` gets no binding at all): nothing carries documentation
+            elif doc not in docs:
+                problems.append("no binding of %s carries the documentation %r; docstrings present: %r" % (name, doc, docs))
+            if any(t not in (doc, "") for t in docs):
+                problems.append("a binding carries a text that is not the documentation %r: %r" % (doc, [t for t in docs if t not in (doc, "")]))
+        ok = not problems or _fail(text=text, doc=doc, problems=problems)
+    reached({"name": CODE_MEMBERS[i], "doc": j, "static": static})
+    return ok
+
+
 def conds(tier):
     q = tier == "quick"
     t = (lambda x, y: x) if q else (lambda x, y: y)
@@ -575,5 +620,7 @@ def conds(tier):
         xh.Cond(M, "c17_partial_xml", t(120, 600), kind="shape-bounded", examples=["shape=1", "shape=5"], bounds="6 partial-XML shapes"),
         xh.Cond(M, "c17_documented_member", t(200, 600), kind="shape-bounded", examples=["i=1, static=0, nargs=1", "i=4, static=0, nargs=0", "i=2, static=1, nargs=2", "i=0, static=0, nargs=2"],
                 bounds="%d member names (ordinary, Python keywords, ipython display names, print, serialize, insert) x static x 0-2 parameters (one defaulted)" % len(DOC_METHODS)),
+        xh.Cond(M, "c17_code_like_text", t(200, 600), kind="shape-bounded", examples=["i=0, j=0, static=0", "i=1, j=4, static=1", "i=2, j=1, static=0"],
+                bounds="%d members (print, ordinary, serialize, ipython display name, insert) x static x %d texts made of the generator's own code words (lambda bodies, format placeholders, post-processing targets)" % (len(CODE_MEMBERS), len(CODE_TEXTS))),
         xh.Cond(M, "c17_nothing_else_changes", t(200, 900), kind="shape-bounded", examples=["n=2, k=1, role=0"], bounds="0-2 args x defaults x 3 roles"),
     ]
